@@ -15,6 +15,7 @@ import (
 	cidlink "github.com/ipld/go-ipld-prime/linking/cid"
 	"github.com/ipld/go-ipld-prime/node/basicnode"
 	"github.com/ipld/go-ipld-prime/schema"
+	"github.com/ipld/go-ipld-prime/traversal"
 
 	"verif/sim/dagmodel"
 	"verif/sim/gen"
@@ -56,7 +57,7 @@ func (c12) Runs(t Tier) int {
 }
 func (c12) RecordWidths() map[string]int { return nil }
 func (c12) RequiredProbes() []string {
-	return []string{"missing-interior-file-block", "missing-last-leaf", "missing-first-leaf", "missing-last-link-shard", "missing-nested-shard", "lookup-blocked", "lookup-not-blocked-under-fault", "kth-load-transient", "subset-fault", "hamt-depth>=3", "dedup-file-block-faulted", "missing-empty-block", "repeated-lookups-same-node", "file-reread-after-recovery", "iterate-again-after-recovery", "well-known-error-value", "file-without-blocksizes", "preload-under-fault", "linksystem-with-node-reifier"}
+	return []string{"missing-interior-file-block", "missing-last-leaf", "missing-first-leaf", "missing-last-link-shard", "missing-nested-shard", "lookup-blocked", "lookup-not-blocked-under-fault", "kth-load-transient", "subset-fault", "hamt-depth>=3", "dedup-file-block-faulted", "missing-empty-block", "repeated-lookups-same-node", "file-reread-after-recovery", "iterate-again-after-recovery", "well-known-error-value", "file-without-blocksizes", "seek-then-read-under-fault", "preload-under-fault", "linksystem-with-node-reifier"}
 }
 
 type c12Scenario struct {
@@ -65,6 +66,7 @@ type c12Scenario struct {
 	Blocks int    `json:"blocks"`
 	Via    string `json:"via,omitempty"`
 	Frag   int    `json:"frag"`
+	SeekTo int64  `json:"seek_to,omitempty"`
 	Plans  int    `json:"fault_plans"`
 	Failed string `json:"failed_plan,omitempty"`
 }
@@ -89,6 +91,12 @@ func flavourErr(f int, c string) error {
 		return &fs.PathError{Op: "open", Path: "/blocks/" + c, Err: fs.ErrNotExist}
 	case 3:
 		return fmt.Errorf("read block %s: %w", c, context.DeadlineExceeded)
+	case 4:
+		// what a visit-once / de-duplicating link loader returns for a block it
+		// refuses to hand out again; the traversal engine gives this value a
+		// meaning of its own for loads IT performs, which is why plans use it
+		// only on blocks loaded by go-unixfsnode
+		return traversal.SkipMe{}
 	}
 	return nil
 }
@@ -97,7 +105,7 @@ func (p faultPlan) String() string {
 	if p.flavour > 0 {
 		q := p
 		q.flavour = 0
-		return q.String() + " failing with " + []string{"", "io.ErrUnexpectedEOF", "*fs.PathError{fs.ErrNotExist}", "wrapped context.DeadlineExceeded"}[p.flavour]
+		return q.String() + " failing with " + []string{"", "io.ErrUnexpectedEOF", "*fs.PathError{fs.ErrNotExist}", "wrapped context.DeadlineExceeded", "traversal.SkipMe{}"}[p.flavour]
 	}
 	if p.kth >= 0 {
 		return fmt.Sprintf("%s@load#%d(once)", p.kind, p.kth)
@@ -178,6 +186,10 @@ func isLoadError(err error) bool {
 	}
 	if errors.Is(err, io.ErrUnexpectedEOF) || errors.Is(err, fs.ErrNotExist) || errors.Is(err, context.DeadlineExceeded) {
 		return true // the flavoured injections
+	}
+	var skip traversal.SkipMe
+	if errors.As(err, &skip) {
+		return true
 	}
 	msg := err.Error()
 	return strings.Contains(msg, "simstore injected") || strings.Contains(msg, "hash mismatch") || strings.Contains(msg, "/blocks/") || strings.Contains(msg, "deadline exceeded") || strings.Contains(msg, "unexpected EOF")
@@ -277,8 +289,16 @@ func (c12) runFile(ts *tape.Set, tier Tier) *Result {
 		res.Skipped, res.SkipReason = true, "DAG larger than the sweep bound"
 		return res
 	}
-	content := model.Content
-	sc := &c12Scenario{Kind: "file", Spec: spec.String(), Blocks: len(model.Spans), Frag: fragMode}
+	fullContent := model.Content
+	// seek mode: the reader is first positioned at a (inside the file) and
+	// then read to the end; blocks that lie wholly before a are not needed
+	a := int64(0)
+	if !useAsBytes && len(fullContent) > 2 && subsetSeed%3 == 0 {
+		a = 1 + int64((subsetSeed>>8)%uint64(len(fullContent)-1))
+		res.probe("seek-then-read-under-fault")
+	}
+	content := fullContent[a:]
+	sc := &c12Scenario{Kind: "file", Spec: spec.String(), Blocks: len(model.Spans), Frag: fragMode, SeekTo: a}
 	res.Scenario = sc
 	if len(model.Spans) < 2 {
 		// single block: nothing to make unavailable but the root
@@ -291,23 +311,44 @@ func (c12) runFile(ts *tape.Set, tier Tier) *Result {
 	firstStart := map[string]int64{}
 	occ := map[string]int{}
 	rootKey := root.KeyString()
+	// occurrences a read from offset a needs, with their start relative to a
+	needed := func(s dagmodel.Span) (int64, bool) {
+		if s.Start == s.End {
+			return s.Start - a, s.Start >= a
+		}
+		if s.End <= a {
+			return 0, false
+		}
+		if s.Start < a {
+			return 0, true
+		}
+		return s.Start - a, true
+	}
+	seenBlock := map[string]bool{}
 	for _, s := range model.Spans {
 		k := s.Cid.KeyString()
 		occ[k]++
-		if _, ok := firstStart[k]; !ok {
-			firstStart[k] = s.Start
+		if !seenBlock[k] {
+			seenBlock[k] = true
 			if k != rootKey {
 				blocks = append(blocks, s.Cid)
+			}
+		}
+		if rel, ok := needed(s); ok {
+			if _, have := firstStart[k]; !have {
+				firstStart[k] = rel
 			}
 		}
 	}
 	starts := map[string]map[int64]bool{}
 	for _, s := range model.Spans {
 		k := s.Cid.KeyString()
-		if starts[k] == nil {
-			starts[k] = map[int64]bool{}
+		if rel, ok := needed(s); ok {
+			if starts[k] == nil {
+				starts[k] = map[int64]bool{}
+			}
+			starts[k][rel] = true
 		}
-		starts[k][s.Start] = true
 	}
 	lastLeaf, firstLeaf := cid.Undef, cid.Undef
 	for _, s := range model.Spans {
@@ -365,6 +406,12 @@ func (c12) runFile(ts *tape.Set, tier Tier) *Result {
 				rerr = fmt.Errorf("AsLargeBytes: %w", err)
 				return
 			}
+			if a > 0 {
+				if _, err := rs.Seek(a, io.SeekStart); err != nil {
+					rerr = fmt.Errorf("seek: %w", err)
+					return
+				}
+			}
 			data, rerr, _ = readSeq(rs, func() int { return 1 + int(br.Next()%300) }, 4*len(content)+64)
 		})
 		if hits != nil {
@@ -379,8 +426,8 @@ func (c12) runFile(ts *tape.Set, tier Tier) *Result {
 			p2, s2, m2 := guard(func() { again, aerr = lastNode.AsBytes() })
 			if p2 {
 				panicked, site, pmsg = p2, s2, "after recovery: "+m2
-			} else if aerr != nil || !bytes.Equal(again, content) {
-				recoveryFailure = fmt.Sprintf("after the store recovered, a new read from the same node returned %d/%d bytes, err=%v", len(again), len(content), aerr)
+			} else if aerr != nil || !bytes.Equal(again, fullContent) {
+				recoveryFailure = fmt.Sprintf("after the store recovered, a new read from the same node returned %d/%d bytes, err=%v", len(again), len(fullContent), aerr)
 			}
 			res.probe("file-reread-after-recovery")
 		}
@@ -417,7 +464,7 @@ func (c12) runFile(ts *tape.Set, tier Tier) *Result {
 	}
 	for i, b := range blocks {
 		kind := []store.FaultKind{store.EIOOpen, store.EIOMid, store.NotFound}[i%3]
-		plans = append(plans, faultPlan{kind: kind, targets: []cid.Cid{b}, kth: -1, after: i * 13, flavour: 1 + i%3})
+		plans = append(plans, faultPlan{kind: kind, targets: []cid.Cid{b}, kth: -1, after: i * 13, flavour: 1 + i%4})
 	}
 	for k := 1; k < nLoads; k += kthStride(nLoads) { // load 0 is the root
 		kind := faultKinds[k%len(faultKinds)]
@@ -474,7 +521,21 @@ func (c12) runFile(ts *tape.Set, tier Tier) *Result {
 		if p.kth >= 0 {
 			res.probe("kth-load-transient")
 			okLens = starts[hit[0].KeyString()]
+			if okLens == nil {
+				// the library requested a block the read from offset a does not
+				// need (C05's subject, not this property's): cannot be judged here
+				continue
+			}
 		} else {
+			anyNeeded := false
+			for _, t := range p.targets {
+				if _, ok := firstStart[t.KeyString()]; ok {
+					anyNeeded = true
+				}
+			}
+			if !anyNeeded {
+				continue
+			}
 			if len(p.targets) > 1 {
 				res.probe("subset-fault")
 			}
